@@ -354,7 +354,7 @@ pub fn random_ends(rng: &mut Rng, n: usize) -> Vec<f64> {
 pub fn drive_evaluator(seed: u64, sessions: usize, with_nan: bool, sink: &mut Sink) {
     let mut rng = Rng::new(seed);
     for _ in 0..sessions {
-        let n = 1 + rng.size(4, 40, 8) as usize;
+        let n = 1 + if rng.below(25) == 0 { 64 + rng.below(70) } else { rng.size(4, 40, 8) } as usize;
         let ends = random_ends(&mut rng, n);
         let pw = probe_pw(&ends);
         let alpha = alphabet(&ends, with_nan);
@@ -545,7 +545,7 @@ pub fn replay_evalv(lines: &[Value], seed: u64) -> ReplayReport {
 pub fn drive_evalv(seed: u64, batches: usize, with_nan: bool, sink: &mut Sink) {
     let mut rng = Rng::new(seed);
     for _ in 0..batches {
-        let n = 1 + rng.size(4, 40, 8) as usize;
+        let n = 1 + if rng.below(25) == 0 { 64 + rng.below(70) } else { rng.size(4, 40, 8) } as usize;
         let ends = random_ends(&mut rng, n);
         let pw = probe_pw(&ends);
         let alpha = alphabet(&ends, false);
@@ -574,7 +574,7 @@ pub fn drive_evalv(seed: u64, batches: usize, with_nan: bool, sink: &mut Sink) {
 pub fn drive_select(seed: u64, lists: usize, sink: &mut Sink) {
     let mut rng = Rng::new(seed);
     for _ in 0..lists {
-        let n = 1 + rng.size(4, 40, 8) as usize;
+        let n = 1 + if rng.below(25) == 0 { 64 + rng.below(70) } else { rng.size(4, 40, 8) } as usize;
         let ends = random_ends(&mut rng, n);
         let pw = probe_pw(&ends);
         let mut xs = alphabet(&ends, true);
@@ -734,6 +734,15 @@ pub fn drive_merge(seed: u64, pairs: usize, sink: &mut Sink) {
             }
             _ => random_ends(&mut rng, ng),
         };
+        if rng.below(4) == 0 {
+            // a documented rejection (NaN breakpoint, or an empty operand) caught on this thread just before:
+            // the next well-formed call must be unaffected by it
+            let mut bad = ge.clone();
+            let k = rng.below(bad.len() as u64) as usize;
+            bad[k] = f64::NAN;
+            let _ = observe_merge(&fe, &bad, rng.bool());
+            let _ = observe_merge(&[], &ge, rng.bool());
+        }
         for sub in [false, true] {
             let o = observe_merge(&fe, &ge, sub);
             let mut xs = alphabet(&fe, false);
@@ -843,7 +852,15 @@ pub fn replay_arb(lines: &[Value], seed: u64, sink: &mut Sink) -> usize {
 pub fn drive_arb(seed: u64, count: usize, sink: &mut Sink) {
     let mut rng = Rng::new(seed);
     for _ in 0..count {
-        let bytes: Vec<u8> = match rng.below(4) {
+        let bytes: Vec<u8> = match if rng.below(40) == 0 { 4 } else { rng.below(4) } {
+            4 => {
+                // long accepted lists (65..200 normal ends) with duplicates, in random order
+                let n = 65 + rng.below(136) as usize;
+                let pool: Vec<f64> = (0..n / 2 + 1).map(|_| rng.float_exp(-8, 8)).collect();
+                let xs: Vec<f64> = (0..n).map(|_| *rng.pick(&pool)).collect();
+                let tail: Vec<u8> = (0..rng.below(64)).map(|_| rng.u64() as u8).collect();
+                encode_vec(&xs, true, &tail)
+            }
             0 => (0..rng.below(400)).map(|_| rng.u64() as u8).collect(),
             1 => {
                 // structured: mostly-normal floats, sometimes a special, random order
